@@ -219,7 +219,8 @@ def gen_string(rng):
         elif r < 88:
             out.append(10)
         elif r < 99:
-            out.append(rng.choice([rng.range(1, 255), rng.choice(b'gGzZ/@`'), rng.range(128, 255)]))
+            # other bytes; among them what the C library's own number parsers accept around a digit (sign, point, exponent, suffix)
+            out.append(rng.choice([rng.range(1, 255), rng.choice(b'gGzZ/@`'), rng.range(128, 255), rng.choice(b'+-+-.,_#hHuUlL')]))
         else:
             out.append(0)                                   # an early NUL: the string simply ends there
     return bytes(out)
@@ -232,7 +233,7 @@ def mutate(rng, text):
         r = rng.below(3)
         pos = rng.below(len(b) + 1)
         if r == 0 or not b:
-            b.insert(pos, rng.choice(XD + b'x: \n\tg' + bytes([rng.range(1, 255)])))
+            b.insert(pos, rng.choice(XD + b'x: \n\tg+-' + bytes([rng.range(1, 255)])))
         elif r == 1:
             del b[min(pos, len(b) - 1)]
         else:
